@@ -107,6 +107,14 @@ impl Sc {
             Ty::Bool => Sc::B(v.as_bool().unwrap()),
         }
     }
+    /// the value whose negation (the language's prefix minus) is this one; None for bool
+    fn negated(self) -> Option<Sc> {
+        match self {
+            Sc::I(n) => Some(Sc::I(n.wrapping_neg())),
+            Sc::F(b) => Some(Sc::F(b ^ (1u64 << 63))),
+            Sc::B(_) => None,
+        }
+    }
     fn show(self) -> String {
         match self {
             Sc::I(n) => n.to_string(),
@@ -360,6 +368,16 @@ fn exec_binary(op: &str, a: Sc, b: Sc, cache: &mut Cache, repeat: bool) -> Vec<F
         let f = format!("(b: {t}) -> {r} {{ return {la} {op} b }}");
         let (out, phase) = cache.call_api(&f, false, vec![b.var()]);
         runs.push(FormRun { form: "half_l", out, cell: None, program: format!("{f} called with ({})", b.show()), phase });
+    }
+    // --- an operand written as the negation of a hidden value (prefix minus binds tighter than every binary operator, and
+    // -(-v) is v for every int - wrapping - and every float): `-x op lb` with x = -a is a op b, `la op -y` with y = -b too
+    if let (Some((la, lb)), Some(na), Some(nb)) = (&lits, a.negated(), b.negated()) {
+        let f = format!("(x: {t}) -> {r} {{ return -x {op} {lb} }}");
+        let (out, phase) = cache.call_api(&f, false, vec![na.var()]);
+        runs.push(FormRun { form: "neg_half_r", out, cell: None, program: format!("{f} called with ({})", na.show()), phase });
+        let f = format!("(y: {t}) -> {r} {{ return {la} {op} -y }}");
+        let (out, phase) = cache.call_api(&f, false, vec![nb.var()]);
+        runs.push(FormRun { form: "neg_half_l", out, cell: None, program: format!("{f} called with ({})", nb.show()), phase });
     }
     // --- both operands are ONE name (x op x): identities such as x == x, x - x, x / x hold for some values only
     if a == b {
